@@ -53,47 +53,52 @@ Enc10(n) == EncNat(n, 10)                                                 \* n >
 RECURSIVE Horner(_, _, _, _)
 Horner(s, lo, hi, base) == IF hi < lo THEN 0 ELSE Horner(s, lo, hi - 1, base) * base + DigitVal[Ch(s, hi)]
 
-AllIn(s, lo, set) == \A i \in lo..Len(s) : Ch(s, i) \in set
-IsNumeral62(s) == IF Len(s) >= 1 /\ Ch(s, 1) = "-" THEN Len(s) >= 2 /\ AllIn(s, 2, DigitSet62)
+\* (TLC may evaluate an operator's argument expression again at every use of the parameter; operators that use a
+\*  parameter many times therefore name its value once with LET)
+AllIn(s0, lo, set) == LET s == s0 IN \A i \in lo..Len(s) : Ch(s, i) \in set
+IsNumeral62(s0) == LET s == s0 IN
+                  IF Len(s) >= 1 /\ Ch(s, 1) = "-" THEN Len(s) >= 2 /\ AllIn(s, 2, DigitSet62)
                   ELSE Len(s) >= 1 /\ AllIn(s, 1, DigitSet62)
-IsCanonical62(s) == /\ IsNumeral62(s)
+IsCanonical62(s0) == LET s == s0 IN
+                    /\ IsNumeral62(s)
                     /\ LET neg == Ch(s, 1) = "-"
                            first == IF neg THEN 2 ELSE 1
                        IN /\ (Ch(s, first) = "0" => Len(s) = first)       \* no leading zero
                           /\ ~(neg /\ Ch(s, 2) = "0")                      \* no "-0"
 \* the numerals whose value the spec can compute: up to five digits, or six digits below 2^31
-Small62(s) == LET neg == Len(s) >= 1 /\ Ch(s, 1) = "-"
+Small62(s0) == LET s == s0  neg == Len(s) >= 1 /\ Ch(s, 1) = "-"
                   nd == IF neg THEN Len(s) - 1 ELSE Len(s)
                   f == IF neg THEN 2 ELSE 1
               IN IsNumeral62(s) /\ (nd <= 5 \/ (nd = 6 /\ (DigitVal[Ch(s, f)] < 2 \/
                     (DigitVal[Ch(s, f)] = 2 /\ Horner(s, f + 1, Len(s), 62) <= 2147483647 - 2 * 916132832))))
-Dec62(s) == IF Ch(s, 1) = "-" THEN -Horner(s, 2, Len(s), 62) ELSE Horner(s, 1, Len(s), 62)
-IsNumeral10(s) == Len(s) >= 1 /\ Len(s) <= 9 /\ AllIn(s, 1, DigitSet10)
-Dec10(s) == Horner(s, 1, Len(s), 10)
+Dec62(s0) == LET s == s0 IN IF Ch(s, 1) = "-" THEN -Horner(s, 2, Len(s), 62) ELSE Horner(s, 1, Len(s), 62)
+IsNumeral10(s0) == LET s == s0 IN Len(s) >= 1 /\ Len(s) <= 9 /\ AllIn(s, 1, DigitSet10)
+Dec10(s0) == LET s == s0 IN Horner(s, 1, Len(s), 10)
 
 \* a leaf: integer (big = FALSE) or opaque canonical numeral (big = TRUE)
 EncLeaf(big, v) == IF big THEN v ELSE Enc62(v)
-LeafOK(big, s) == IF big THEN IsCanonical62(s) ELSE Small62(s)
-DecLeaf(big, s) == IF big THEN s ELSE Dec62(s)
+LeafOK(big, s0) == LET s == s0 IN IF big THEN IsCanonical62(s) ELSE Small62(s)
+DecLeaf(big, s0) == LET s == s0 IN IF big THEN s ELSE Dec62(s)
 
 ---------------------------------------------------------------------------
 (* sequences of strings                                                    *)
 RECURSIVE Cat(_, _, _)
 Cat(ss, lo, hi) == IF lo > hi THEN "" ELSE IF lo = hi THEN ss[lo]
                    ELSE LET mid == (lo + hi) \div 2 IN Cat(ss, lo, mid) \o Cat(ss, mid + 1, hi)
-Concat(ss) == Cat(ss, 1, Len(ss))
+Concat(ss0) == LET ss == ss0 IN Cat(ss, 1, Len(ss))
 Idx(n) == [i \in 1..n |-> i]
 \* positions of the delimiter d in s, ascending
-Delims(s, d) == SelectSeq(Idx(Len(s)), LAMBDA i : Ch(s, i) = d)
+Delims(s0, d) == LET s == s0 IN SelectSeq(Idx(Len(s)), LAMBDA i : Ch(s, i) = d)
 \* the j-th field when P are the delimiter positions: the text between delimiter j-1 and delimiter j
 Field(s, P, j) == SubSeq(s, (IF j = 1 THEN 1 ELSE P[j - 1] + 1), P[j] - 1)
 Rest(s, P, j) == SubSeq(s, P[j] + 1, Len(s))              \* everything behind the j-th delimiter
-Lines(nums) == Concat([i \in 1..Len(nums) |-> nums[i] \o NL])
-Flat(seqs) == LET RECURSIVE F(_, _)
+Lines(nums0) == LET nums == nums0 IN Concat([i \in 1..Len(nums) |-> nums[i] \o NL])
+Flat(seqs0) == LET seqs == seqs0
+                  RECURSIVE F(_, _)
                   F(lo, hi) == IF lo > hi THEN <<>> ELSE IF lo = hi THEN seqs[lo]
                                ELSE LET mid == (lo + hi) \div 2 IN F(lo, mid) \o F(mid + 1, hi)
               IN F(1, Len(seqs))
-IsPerm0(pi) == \A v \in 0..(Len(pi) - 1) : \E i \in 1..Len(pi) : pi[i] = v    \* a permutation of 0..n-1
+IsPerm0(pi0) == LET pi == pi0 IN \A v \in 0..(Len(pi) - 1) : \E i \in 1..Len(pi) : pi[i] = v    \* a permutation of 0..n-1
 
 Reject == [ok |-> FALSE]
 Accept(o) == [ok |-> TRUE, o |-> o]
@@ -105,40 +110,40 @@ TSec(big, k, w, r, b) == [ty |-> "tsec", big |-> big, k |-> k, w |-> w, r |-> r,
 VCard(big, c1, c2) == [ty |-> "vcard", big |-> big, c1 |-> c1, c2 |-> c2]
 VSec(big, r) == [ty |-> "vsec", big |-> big, r |-> r]
 
-ExpTCard(o) == "crd|" \o Enc10(o.k) \o "|" \o Enc10(o.w) \o "|" \o
+ExpTCard(o0) == LET o == o0 IN "crd|" \o Enc10(o.k) \o "|" \o Enc10(o.w) \o "|" \o
   Concat([n \in 1..(o.k * o.w) |-> EncLeaf(o.big, o.z[(n - 1) \div o.w + 1][((n - 1) % o.w) + 1]) \o "|"])
-ExpTSec(o) == "crs|" \o Enc10(o.k) \o "|" \o Enc10(o.w) \o "|" \o
+ExpTSec(o0) == LET o == o0 IN "crs|" \o Enc10(o.k) \o "|" \o Enc10(o.w) \o "|" \o
   Concat([n \in 1..(o.k * o.w) |->
             LET i == (n - 1) \div o.w + 1  j == ((n - 1) % o.w) + 1
             IN EncLeaf(o.big, o.r[i][j]) \o "|" \o EncLeaf(o.big, o.b[i][j]) \o "|"])
-ExpVCard(o) == "crd|" \o EncLeaf(o.big, o.c1) \o "|" \o EncLeaf(o.big, o.c2) \o "|"
-ExpVSec(o) == "crs|" \o EncLeaf(o.big, o.r) \o "|"
+ExpVCard(o0) == LET o == o0 IN "crd|" \o EncLeaf(o.big, o.c1) \o "|" \o EncLeaf(o.big, o.c2) \o "|"
+ExpVSec(o0) == LET o == o0 IN "crs|" \o EncLeaf(o.big, o.r) \o "|"
 
 \* header  magic|k|w|  with both dimensions inside their limits
 DimsOK(s, P, magic) ==
   /\ Len(P) >= 3 /\ Field(s, P, 1) = magic
   /\ IsNumeral10(Field(s, P, 2)) /\ Dec10(Field(s, P, 2)) \in 1..MaxPlayers
   /\ IsNumeral10(Field(s, P, 3)) /\ Dec10(Field(s, P, 3)) \in 1..MaxTypeBits
-ImpTCard(big, s) ==
-  LET P == Delims(s, "|") IN
+ImpTCard(big, s0) ==
+  LET s == s0  P == Delims(s, "|") IN
   IF ~DimsOK(s, P, "crd") THEN Reject ELSE
   LET k == Dec10(Field(s, P, 2))  w == Dec10(Field(s, P, 3)) IN
   IF Len(P) < 3 + k * w \/ \E n \in 1..(k * w) : ~LeafOK(big, Field(s, P, 3 + n)) THEN Reject
   ELSE Accept(TCard(big, k, w, [i \in 1..k |-> [j \in 1..w |-> DecLeaf(big, Field(s, P, 3 + (i - 1) * w + j))]]))
-ImpTSec(big, s) ==
-  LET P == Delims(s, "|") IN
+ImpTSec(big, s0) ==
+  LET s == s0  P == Delims(s, "|") IN
   IF ~DimsOK(s, P, "crs") THEN Reject ELSE
   LET k == Dec10(Field(s, P, 2))  w == Dec10(Field(s, P, 3)) IN
   IF Len(P) < 3 + 2 * k * w \/ \E n \in 1..(2 * k * w) : ~LeafOK(big, Field(s, P, 3 + n)) THEN Reject
   ELSE Accept(TSec(big, k, w,
          [i \in 1..k |-> [j \in 1..w |-> DecLeaf(big, Field(s, P, 3 + 2 * ((i - 1) * w + j) - 1))]],
          [i \in 1..k |-> [j \in 1..w |-> DecLeaf(big, Field(s, P, 3 + 2 * ((i - 1) * w + j)))]]))
-ImpVCard(big, s) ==
-  LET P == Delims(s, "|") IN
+ImpVCard(big, s0) ==
+  LET s == s0  P == Delims(s, "|") IN
   IF Len(P) < 3 \/ Field(s, P, 1) # "crd" \/ ~LeafOK(big, Field(s, P, 2)) \/ ~LeafOK(big, Field(s, P, 3)) THEN Reject
   ELSE Accept(VCard(big, DecLeaf(big, Field(s, P, 2)), DecLeaf(big, Field(s, P, 3))))
-ImpVSec(big, s) ==
-  LET P == Delims(s, "|") IN
+ImpVSec(big, s0) ==
+  LET s == s0  P == Delims(s, "|") IN
   IF Len(P) < 2 \/ Field(s, P, 1) # "crs" \/ ~LeafOK(big, Field(s, P, 2)) THEN Reject
   ELSE Accept(VSec(big, DecLeaf(big, Field(s, P, 2))))
 
@@ -147,27 +152,27 @@ ImpVSec(big, s) ==
 Stack(ty, big, s) == [ty |-> ty, big |-> big, s |-> s]                      \* ty: "tstack" | "vstack"
 StackSecret(ty, big, pi, s) == [ty |-> ty, big |-> big, pi |-> pi, s |-> s]  \* ty: "tss" | "vss"; pi[i] in 0..n-1
 
-ExpElem(o) == CASE o.ty = "tcard" -> ExpTCard(o) [] o.ty = "vcard" -> ExpVCard(o)
+ExpElem(o0) == LET o == o0 IN CASE o.ty = "tcard" -> ExpTCard(o) [] o.ty = "vcard" -> ExpVCard(o)
                 [] o.ty = "tsec" -> ExpTSec(o)   [] o.ty = "vsec" -> ExpVSec(o)
-ExpStack(o) == "stk^" \o Enc10(Len(o.s)) \o "^" \o Concat([i \in 1..Len(o.s) |-> ExpElem(o.s[i]) \o "^"])
-ExpStackSecret(o) == "sts^" \o Enc10(Len(o.s)) \o "^" \o
+ExpStack(o0) == LET o == o0 IN "stk^" \o Enc10(Len(o.s)) \o "^" \o Concat([i \in 1..Len(o.s) |-> ExpElem(o.s[i]) \o "^"])
+ExpStackSecret(o0) == LET o == o0 IN "sts^" \o Enc10(Len(o.s)) \o "^" \o
   Concat([i \in 1..Len(o.s) |-> Enc10(o.pi[i]) \o "^" \o ExpElem(o.s[i]) \o "^"])
 
-ImpStack(ty, big, s) ==
-  LET P == Delims(s, "^") IN
+ImpStack(ty, big, s0) ==
+  LET s == s0  P == Delims(s, "^") IN
   IF Len(P) < 2 \/ Field(s, P, 1) # "stk" \/ ~IsNumeral10(Field(s, P, 2)) THEN Reject ELSE
   LET n == Dec10(Field(s, P, 2)) IN
   IF n < 1 \/ n > MaxCards \/ Len(P) < 2 + n THEN Reject ELSE
-  LET c == [i \in 1..n |-> IF ty = "tstack" THEN ImpTCard(big, Field(s, P, 2 + i)) ELSE ImpVCard(big, Field(s, P, 2 + i))] IN
+  LET c == [i \in 1..n |-> LET e == Field(s, P, 2 + i) IN IF ty = "tstack" THEN ImpTCard(big, e) ELSE ImpVCard(big, e)] IN
   IF \E i \in 1..n : ~c[i].ok THEN Reject ELSE Accept(Stack(ty, big, [i \in 1..n |-> c[i].o]))
-ImpStackSecret(ty, big, s) ==
-  LET P == Delims(s, "^") IN
+ImpStackSecret(ty, big, s0) ==
+  LET s == s0  P == Delims(s, "^") IN
   IF Len(P) < 2 \/ Field(s, P, 1) # "sts" \/ ~IsNumeral10(Field(s, P, 2)) THEN Reject ELSE
   LET n == Dec10(Field(s, P, 2)) IN
   IF n < 1 \/ n > MaxCards \/ Len(P) < 2 + 2 * n THEN Reject ELSE
   IF \E i \in 1..n : ~IsNumeral10(Field(s, P, 2 * i + 1)) THEN Reject ELSE
   LET pi == [i \in 1..n |-> Dec10(Field(s, P, 2 * i + 1))]
-      c == [i \in 1..n |-> IF ty = "tss" THEN ImpTSec(big, Field(s, P, 2 * i + 2)) ELSE ImpVSec(big, Field(s, P, 2 * i + 2))] IN
+      c == [i \in 1..n |-> LET e == Field(s, P, 2 * i + 2) IN IF ty = "tss" THEN ImpTSec(big, e) ELSE ImpVSec(big, e)] IN
   IF (\E i \in 1..n : pi[i] >= n) \/ ~IsPerm0(pi) \/ (\E i \in 1..n : ~c[i].ok) THEN Reject
   ELSE Accept(StackSecret(ty, big, pi, [i \in 1..n |-> c[i].o]))
 
@@ -178,17 +183,17 @@ PubKey(big, name, email, kty, m, y, nizk, sig) ==
 SecKey(big, name, email, kty, m, y, p, q, nizk, sig) ==
   [ty |-> "sec", big |-> big, name |-> name, email |-> email, kty |-> kty, m |-> m, y |-> y, p |-> p, q |-> q,
    nizk |-> nizk, sig |-> sig]
-ExpPub(o) == "pub|" \o o.name \o "|" \o o.email \o "|" \o o.kty \o "|" \o EncLeaf(o.big, o.m) \o "|" \o
+ExpPub(o0) == LET o == o0 IN "pub|" \o o.name \o "|" \o o.email \o "|" \o o.kty \o "|" \o EncLeaf(o.big, o.m) \o "|" \o
              EncLeaf(o.big, o.y) \o "|" \o o.nizk \o "|" \o o.sig
-ExpSec(o) == "sec|" \o o.name \o "|" \o o.email \o "|" \o o.kty \o "|" \o EncLeaf(o.big, o.m) \o "|" \o
+ExpSec(o0) == LET o == o0 IN "sec|" \o o.name \o "|" \o o.email \o "|" \o o.kty \o "|" \o EncLeaf(o.big, o.m) \o "|" \o
              EncLeaf(o.big, o.y) \o "|" \o EncLeaf(o.big, o.p) \o "|" \o EncLeaf(o.big, o.q) \o "|" \o o.nizk \o "|" \o o.sig
-ImpPub(big, s) ==
-  LET P == Delims(s, "|") IN
+ImpPub(big, s0) ==
+  LET s == s0  P == Delims(s, "|") IN
   IF Len(P) < 7 \/ Field(s, P, 1) # "pub" \/ ~LeafOK(big, Field(s, P, 5)) \/ ~LeafOK(big, Field(s, P, 6)) THEN Reject
   ELSE Accept(PubKey(big, Field(s, P, 2), Field(s, P, 3), Field(s, P, 4), DecLeaf(big, Field(s, P, 5)),
                      DecLeaf(big, Field(s, P, 6)), Field(s, P, 7), Rest(s, P, 7)))
-ImpSec(big, s) ==
-  LET P == Delims(s, "|") IN
+ImpSec(big, s0) ==
+  LET s == s0  P == Delims(s, "|") IN
   IF Len(P) < 9 \/ Field(s, P, 1) # "sec" \/ \E j \in 5..8 : ~LeafOK(big, Field(s, P, j)) THEN Reject
   ELSE Accept(SecKey(big, Field(s, P, 2), Field(s, P, 3), Field(s, P, 4), DecLeaf(big, Field(s, P, 5)),
                      DecLeaf(big, Field(s, P, 6)), DecLeaf(big, Field(s, P, 7)), DecLeaf(big, Field(s, P, 8)),
@@ -203,7 +208,8 @@ LS(o, vs) == [i \in 1..Len(vs) |-> EncLeaf(o.big, vs[i])]
 D(n) == Enc10(n)
 DS(ns) == [i \in 1..Len(ns) |-> Enc10(ns[i])]
 RECURSIVE LinesOf(_)
-LinesOf(o) ==
+LinesOf(o0) ==
+  LET o == o0 IN
   CASE o.ty = "int"   -> <<L(o, o.v)>>                                           \* one integer on a line of its own
     [] o.ty = "ints"  -> LS(o, o.v)                                              \* several integers, NL framing
     [] o.ty = "vtmf"  -> <<L(o, o.p), L(o, o.q), L(o, o.g), L(o, o.k)>>          \* Barnett-Smart group (all VTMF classes)
@@ -233,10 +239,10 @@ LinesOf(o) ==
     \* CGJKR DSS: the same head, then the state of its DKG instance
     [] o.ty = "dss"   -> <<L(o, o.p), L(o, o.q), L(o, o.g), L(o, o.h), D(o.n), D(o.t), D(o.i), L(o, o.x), L(o, o.xp), L(o, o.y),
                            D(Len(o.qual))>> \o DS(o.qual) \o LinesOf(o.dkg)
-ExpLines(o) == Lines(LinesOf(o))
+ExpLines(o0) == LET o == o0 IN Lines(LinesOf(o))
 
 \* reading: a cursor over the lines; R.ok turns FALSE when a line is missing or is not what the field requires
-SplitLines(s) == LET P == Delims(s, NL) IN [j \in 1..Len(P) |-> Field(s, P, j)]
+SplitLines(s0) == LET s == s0  P == Delims(s, NL) IN [j \in 1..Len(P) |-> Field(s, P, j)]
 Rd0(ls) == [ok |-> TRUE, at |-> 1, ls |-> ls]
 Have(R, n) == R.ok /\ R.at + n - 1 <= Len(R.ls)
 \* n leaves / n dimensions starting at the cursor (only evaluated when Have(R, n))
@@ -313,7 +319,7 @@ RdHead(big, R) ==                                      \* common head of cdkg an
   LET x == LeavesAt(R1, big, 3)  qual == QualAt(Adv(R1, 3)) IN
   Got([big |-> big, p |-> crs[1], q |-> crs[2], g |-> crs[3], h |-> crs[4], n |-> d[1], t |-> d[2], i |-> d[3],
        x |-> x[1], xp |-> x[2], y |-> x[3], qual |-> qual], Adv(R1, 4 + Len(qual)))
-With(rec, f1, v1, f2, v2) == [f \in DOMAIN rec \cup {f1, f2} |-> IF f = f1 THEN v1 ELSE IF f = f2 THEN v2 ELSE rec[f]]
+With(rec0, f1, v10, f2, v20) == LET rec == rec0  v1 == v10  v2 == v20 IN [f \in DOMAIN rec \cup {f1, f2} |-> IF f = f1 THEN v1 ELSE IF f = f2 THEN v2 ELSE rec[f]]
 RdCdkg(big, R) ==
   LET h == RdHead(big, R) IN IF ~h.ok THEN Bad(R) ELSE
   LET r == RdXvss("rvss", big, h.R) IN IF ~r.ok THEN Bad(R) ELSE Got(With(h.o, "ty", "cdkg", "rvss", r.o), r.R)
@@ -346,12 +352,14 @@ ImpLines(ty, big, arg, s) ==
 ---------------------------------------------------------------------------
 (* the two directions for every type                                        *)
 LineTypes == {"int", "ints", "vtmf", "com", "vsshe", "vrhe", "ptc", "eotp", "pvss", "gjkr", "rvss", "zvss", "cdkg", "dss"}
-Export(o) ==
+Export(o0) ==
+  LET o == o0 IN
   CASE o.ty = "tcard" -> ExpTCard(o) [] o.ty = "tsec" -> ExpTSec(o) [] o.ty = "vcard" -> ExpVCard(o) [] o.ty = "vsec" -> ExpVSec(o)
     [] o.ty \in {"tstack", "vstack"} -> ExpStack(o) [] o.ty \in {"tss", "vss"} -> ExpStackSecret(o)
     [] o.ty = "pub" -> ExpPub(o) [] o.ty = "sec" -> ExpSec(o)
     [] o.ty \in LineTypes -> ExpLines(o)
-Import(ty, big, arg, s) ==
+Import(ty, big, arg, s0) ==
+  LET s == s0 IN
   CASE ty = "tcard" -> ImpTCard(big, s) [] ty = "tsec" -> ImpTSec(big, s) [] ty = "vcard" -> ImpVCard(big, s) [] ty = "vsec" -> ImpVSec(big, s)
     [] ty \in {"tstack", "vstack"} -> ImpStack(ty, big, s) [] ty \in {"tss", "vss"} -> ImpStackSecret(ty, big, s)
     [] ty = "pub" -> ImpPub(big, s) [] ty = "sec" -> ImpSec(big, s)
@@ -360,7 +368,7 @@ Import(ty, big, arg, s) ==
 ArgOf(o) == CASE o.ty = "com" -> Len(o.g) [] o.ty = "vsshe" -> Len(o.com.g) [] o.ty = "ints" -> Len(o.v) [] OTHER -> 0
 
 \* the property, on the level of the specification
-RoundTrip(o) == LET txt == Export(o)  r == Import(o.ty, o.big, ArgOf(o), txt)
+RoundTrip(o0) == LET o == o0  txt == Export(o)  r == Import(o.ty, o.big, ArgOf(o), txt)
                 IN r.ok /\ r.o = o /\ Export(r.o) = txt
 
 ---------------------------------------------------------------------------
@@ -372,19 +380,20 @@ MaxI(x, y) == IF x > y THEN x ELSE y
 MinI(x, y) == IF x < y THEN x ELSE y
 \* carries: every round moves the excess of each position one position up; rounds until every entry is a digit
 RECURSIVE Norm(_)
-Norm(ds) == IF \A i \in 1..Len(ds) : ds[i] < 62 THEN (IF Len(ds) > 1 /\ ds[Len(ds)] = 0 THEN Norm(SubSeq(ds, 1, Len(ds) - 1)) ELSE ds)
+Norm(ds0) == LET ds == ds0 IN
+            IF \A i \in 1..Len(ds) : ds[i] < 62 THEN (IF Len(ds) > 1 /\ ds[Len(ds)] = 0 THEN Norm(SubSeq(ds, 1, Len(ds) - 1)) ELSE ds)
             ELSE Norm([i \in 1..(Len(ds) + 1) |-> (IF i <= Len(ds) THEN ds[i] % 62 ELSE 0) + (IF i > 1 THEN ds[i - 1] \div 62 ELSE 0)])
-Mul(a, b) == Norm([k \in 1..(Len(a) + Len(b)) |-> ConvSum(a, b, k, MaxI(1, k + 1 - Len(b)), MinI(k, Len(a)))])   \* Len(a), Len(b) <= 2800
+Mul(a0, b0) == LET a == a0  b == b0 IN Norm([k \in 1..(Len(a) + Len(b)) |-> ConvSum(a, b, k, MaxI(1, k + 1 - Len(b)), MinI(k, Len(a)))])   \* Len(a), Len(b) <= 2800
 RECURSIVE Pow2Digits(_)
-Pow2Digits(k) == IF k = 0 THEN <<1>> ELSE IF k % 2 = 1 THEN Mul(Pow2Digits(k - 1), <<2>>)
+Pow2Digits(k) == IF k = 0 THEN <<1>> ELSE IF k % 2 = 1 THEN LET d == Pow2Digits(k - 1) IN Mul(d, <<2>>)
                  ELSE LET h == Pow2Digits(k \div 2) IN Mul(h, h)
 \* digit sequence minus one (value >= 1) / plus one
 RECURSIVE DecFrom(_, _)
-DecFrom(ds, i) == IF ds[i] > 0 THEN [ds EXCEPT ![i] = @ - 1] ELSE DecFrom([ds EXCEPT ![i] = 61], i + 1)
+DecFrom(ds0, i) == LET ds == ds0 IN IF ds[i] > 0 THEN [ds EXCEPT ![i] = @ - 1] ELSE DecFrom([ds EXCEPT ![i] = 61], i + 1)
 RECURSIVE IncFrom(_, _)
-IncFrom(ds, i) == IF i > Len(ds) THEN Append(ds, 1)
+IncFrom(ds0, i) == LET ds == ds0 IN IF i > Len(ds) THEN Append(ds, 1)
                   ELSE IF ds[i] < 61 THEN [ds EXCEPT ![i] = @ + 1] ELSE IncFrom([ds EXCEPT ![i] = 0], i + 1)
-Render(ds) == Concat([j \in 1..Len(ds) |-> DigitChar(ds[Len(ds) + 1 - j])])
+Render(ds0) == LET ds == ds0 IN Concat([j \in 1..Len(ds) |-> DigitChar(ds[Len(ds) + 1 - j])])
 Pow2Str(k) == Render(Pow2Digits(k))                         \* 2^k
 Pow2m1Str(k) == Render(Norm(DecFrom(Pow2Digits(k), 1)))     \* 2^k - 1
 Pow2p1Str(k) == Render(IncFrom(Pow2Digits(k), 1))           \* 2^k + 1
